@@ -32,6 +32,8 @@ Class Num (F : Type) := {
   n_abs : F -> F;
   n_rint : F -> F;                       (* torch.round: to nearest integer, ties to even *)
   n_cast : storage -> F -> F;            (* value held after .to(<storage dtype>) and back *)
+  n_mul_py : F -> b64 -> F;              (* tensor element * Python float: computed in the op-math type (float32 for
+                                            float16/bfloat16 tensors), the scalar rounded to that type first *)
   n_nan_to_num : F -> F;                 (* torch.nan_to_num(x, nan=0.0): NaN -> 0, +-inf -> +-largest finite *)
   n_eqb : F -> F -> bool;
 }.
@@ -79,7 +81,7 @@ Definition tf_where (c : tensor bool) (a b : tensor F) : res (tensor F) :=
 Definition tf_cast (s : storage) (a : tensor F) := t_map (n_cast s) a.
 Definition tf_div_int (a : tensor F) (k : Z) := t_map (fun x => n_div x (n_of_Z k)) a.
 Definition tf_mul_int (a : tensor F) (k : Z) := t_map (fun x => n_mul x (n_of_Z k)) a.
-Definition tf_mul_py (a : tensor F) (k : b64) := t_map (fun x => n_mul x (n_of_b64 k)) a.
+Definition tf_mul_py (a : tensor F) (k : b64) := t_map (fun x => n_mul_py x k) a.
 Definition tf_amax (rd : list Z) (a : tensor F) := t_reduce n_max f0 rd a.
 Definition tf_amin (rd : list Z) (a : tensor F) := t_reduce n_min f0 rd a.
 Definition tf_max_all (a : tensor F) := t_reduce_all n_max a.
